@@ -1,0 +1,52 @@
+//go:build verif
+
+// Package verifhook provides pause points used by the verification harness in /verif to
+// widen race windows deterministically. Without the `verif` build tag Point is a no-op.
+package verifhook
+
+import (
+	"sync"
+	"time"
+)
+
+var (
+	mu    sync.Mutex
+	armed = map[string]time.Duration{}
+	hits  = map[string]int{}
+)
+
+// Arm makes Point(name) sleep for d each time it is reached.
+func Arm(name string, d time.Duration) {
+	mu.Lock()
+	defer mu.Unlock()
+	armed[name] = d
+}
+
+// Disarm removes the delay of name ("" disarms everything).
+func Disarm(name string) {
+	mu.Lock()
+	defer mu.Unlock()
+	if name == "" {
+		armed = map[string]time.Duration{}
+		return
+	}
+	delete(armed, name)
+}
+
+// Hits reports how often Point(name) was reached.
+func Hits(name string) int {
+	mu.Lock()
+	defer mu.Unlock()
+	return hits[name]
+}
+
+// Point is a named pause point.
+func Point(name string) {
+	mu.Lock()
+	d := armed[name]
+	hits[name]++
+	mu.Unlock()
+	if d > 0 {
+		time.Sleep(d)
+	}
+}
